@@ -752,8 +752,9 @@ impl Archive {
         if let Some(hi_block_pos) = self.header.hi_block_table_pos
             && hi_block_pos != 0
         {
-            let hi_block_offset = self.archive_offset + hi_block_pos;
-            let hi_block_end = hi_block_offset + (self.header.block_table_size as u64 * 8);
+            let hi_block_offset = self.archive_offset.saturating_add(hi_block_pos);
+            let hi_block_end =
+                hi_block_offset.saturating_add(self.header.block_table_size as u64 * 8);
 
             let file_size = self.reader.get_ref().metadata()?.len();
             if hi_block_end > file_size {
@@ -2571,18 +2572,15 @@ impl Archive {
         log::debug!("Determining HET table size from file structure");
 
         // Calculate the actual size based on what comes after HET table
-        let actual_size = if let Some(bet_pos) = self.header.bet_table_pos {
-            if bet_pos > het_pos {
-                // BET table comes after HET
-                bet_pos - het_pos
-            } else {
-                // Calculate from hash table position
-                self.header.get_hash_table_pos() - het_pos
-            }
-        } else {
+        let next_table_pos = match self.header.bet_table_pos {
+            // BET table comes after HET
+            Some(bet_pos) if bet_pos > het_pos => bet_pos,
             // Calculate from hash table position
-            self.header.get_hash_table_pos() - het_pos
+            _ => self.header.get_hash_table_pos(),
         };
+        let actual_size = next_table_pos.checked_sub(het_pos).ok_or_else(|| {
+            Error::invalid_format("HET table position lies behind the table after it")
+        })?;
 
         log::debug!("HET table position: 0x{het_pos:X}, calculated size: {actual_size} bytes");
 
@@ -2595,7 +2593,13 @@ impl Archive {
         log::debug!("Determining BET table size from file structure");
 
         // Calculate the actual size based on what comes after BET table (usually hash table)
-        let actual_size = self.header.get_hash_table_pos() - bet_pos;
+        let actual_size = self
+            .header
+            .get_hash_table_pos()
+            .checked_sub(bet_pos)
+            .ok_or_else(|| {
+                Error::invalid_format("BET table position lies behind the hash table")
+            })?;
 
         log::debug!("BET table position: 0x{bet_pos:X}, calculated size: {actual_size} bytes");
 
@@ -2726,10 +2730,12 @@ impl Archive {
         let file_size = self.reader.get_ref().metadata()?.len();
 
         // Calculate expected archive end position
-        let archive_end = self.archive_offset + self.header.get_archive_size();
+        let archive_end = self
+            .archive_offset
+            .saturating_add(self.header.get_archive_size());
 
         // Check if there's enough space for a strong signature after the archive
-        if file_size < archive_end + STRONG_SIGNATURE_SIZE as u64 {
+        if file_size < archive_end.saturating_add(STRONG_SIGNATURE_SIZE as u64) {
             log::debug!("File too small for strong signature");
             return Ok(SignatureStatus::None);
         }
